@@ -31,6 +31,8 @@ checks = {
    text="Held on the executions observed: roster histories crossing the 2-byte counter boundaries are read back in order; verifyPlacementSignatures=true (and a successful submitObjectPut) is accepted only if the Go oracle finds >= REP distinct members with a valid signature in every vector; honest matrices must be accepted.", ref="§3 C14"),
  "C09": dict(tech="runtime monitoring: executable lock model stepping with the transaction stream; exact multiset of unlock transfers and balance deltas per epoch tick, state read-back of every lock after every block",
    text="Held on the executions observed: lock/burn/transfer/tick histories with many locks sharing parents and expiry epochs; each tick's unlock events and balance deltas must equal the model's expired set exactly (exactly-once by construction of the model).", ref="§3 C09"),
+ "C16": dict(tech="runtime monitoring: differential read-API and raw-storage comparison across real upgrades (down-versioned build of the tree, legacy-layout shim, recorded network dumps) under all signer sets and version numbers around both bounds",
+   text="Held on the executions observed: the tree's own update/_deploy(isUpdate) code is executed (a) on the real code reporting an older version under every signer set on committees of 3 and 7, (b) over synthetic storages in every old layout class x notary-flag variant x version numbers around both bounds, (c) over the repository's three network dumps; refusals must change nothing, accepted upgrades must leave the whole read API and the raw storage equal to the reference, migrated subscribers/locks must keep working.", ref="§3 C16"),
  "C17": dict(tech="runtime monitoring: ballot reference model stepping with every invocation; exhaustive short call sequences plus PRNG histories; exactly-once check of effect and notification in the firing transaction",
    text="Held on the executions observed; all setConfig call sequences of length 3 (quick) / 4 (thorough) for 1..3 Alphabet keys over {stranger, members} x 2 ids x gaps {0,1,20,21} are executed on the real contract, plus PRNG histories for 1..7 keys over cheque, alphabetUpdate, candidate removal; the model names the invocation in which each decision fires and the effect/notification must appear exactly there; strangers must never count.", ref="§3 C17"),
  "C18": dict(tech="runtime monitoring: exhaustive small-scope input enumeration through read-only invocations of the real contract, judged by independent predicates (names) and a MUST/MAY sandwich over net/netip (addresses)",
